@@ -18,7 +18,7 @@ pub enum MK { // mark kinds
 pub struct Mark { pub off: usize, pub len: usize, pub kind: MK }
 #[derive(Debug, Clone)]
 pub struct Deletable { pub off: usize, pub len: usize, pub err: &'static str, pub tok: &'static str, pub at_mark: Option<usize> /* index into `anchors` giving expected position */ }
-pub struct G<'a> { pub u: Src<'a>, pub out: String, pub marks: Vec<Mark>, pub dels: Vec<Deletable>, pub anchors: Vec<usize>, pub depth: usize, pub feats: Vec<&'static str>, pub in_macro: usize, pub str_regions: Vec<(usize, usize)>, pub last_int: bool, pub max_depth: usize }
+pub struct G<'a> { pub u: Src<'a>, pub out: String, pub marks: Vec<Mark>, pub dels: Vec<Deletable>, pub anchors: Vec<usize>, pub depth: usize, pub feats: Vec<&'static str>, pub in_macro: usize, pub str_regions: Vec<(usize, usize)>, pub last_int: bool, pub max_depth: usize, pub open_parens: usize, pub trunc_points: Vec<(usize, usize)> }
 
 const IDENTS: &[&str] = &["a", "b", "x1", "_v", "abc", "var_2", "tbl", "col", "é1", "mylib", "Z"];
 const MNAMES: &[&str] = &["m", "mymac", "util_1", "_m", "doit", "M2"];
@@ -30,12 +30,20 @@ const OPEN_SYM: &[&str] = &["=", "+", "-", "/", "<", ">", "<=", ">=", "^=", "~="
 const WORDS: &[&str] = &["a", "abc", "x1", "some", "text", "v_1", "é", "data", "q2"];
 
 impl<'a> G<'a> {
-    pub fn new(data: &'a [u8]) -> G<'a> { G { u: Src::new(data), out: String::new(), marks: vec![], dels: vec![], anchors: vec![], depth: 0, feats: vec![], in_macro: 0, str_regions: vec![], last_int: false, max_depth: 0 } }
+    pub fn new(data: &'a [u8]) -> G<'a> { G { u: Src::new(data), out: String::new(), marks: vec![], dels: vec![], anchors: vec![], depth: 0, feats: vec![], in_macro: 0, str_regions: vec![], last_int: false, max_depth: 0, open_parens: 0, trunc_points: vec![] } }
     fn d_inc(&mut self) { self.depth += 1; if self.depth > self.max_depth { self.max_depth = self.depth; } }
     fn p(&mut self, s: &str) { self.out.push_str(s); }
     fn pick<'b>(&mut self, xs: &[&'b str]) -> &'b str { xs[self.u.below(xs.len())] }
     fn feat(&mut self, f: &'static str) { if !self.feats.contains(&f) { self.feats.push(f); } }
-    fn mark(&mut self, s: &str, kind: MK) { let off = self.out.len(); self.out.push_str(s); self.marks.push(Mark { off, len: s.len(), kind }); }
+    fn mark(&mut self, s: &str, kind: MK) {
+        let off = self.out.len(); self.out.push_str(s); self.marks.push(Mark { off, len: s.len(), kind });
+        match kind { MK::Delim("LPAREN", _) | MK::Op("LPAREN") => self.open_parens += 1, MK::Delim("RPAREN", _) | MK::Op("RPAREN") => self.open_parens = self.open_parens.saturating_sub(1), _ => {} }
+    }
+    // parentheses of a nested group inside argument text (text for the lexer, but counted by its nesting level)
+    fn gopen(&mut self) { self.p("("); self.open_parens += 1; }
+    fn gclose(&mut self) { self.p(")"); self.open_parens = self.open_parens.saturating_sub(1); }
+    // a point inside open call parentheses at which the input may be cut: every '(' still open there must get its virtual ')'
+    fn tp(&mut self) { if self.open_parens > 0 { self.trunc_points.push((self.out.len(), self.open_parens)); } }
     fn anchor(&mut self) -> usize { self.anchors.push(self.out.len()); self.anchors.len() - 1 }
     // insignificant whitespace/comments (hidden)
     fn ows(&mut self) { match self.u.below(8) { 0 | 1 | 2 | 3 => {} 4 => self.mark(" ", MK::HiddenWs), 5 => self.mark("\n", MK::HiddenWs), 6 => self.mark("  \t", MK::HiddenWs), _ => { self.mark("/*c,=;)*/", MK::HiddenWs); self.feat("comment-in-gap"); } } }
@@ -156,22 +164,22 @@ impl<'a> G<'a> {
         let n = self.u.below(4);
         for _ in 0..n {
             match if self.depth > 5 { self.u.below(3) } else { self.u.below(11) } {
-                0 | 1 => { let w = self.pick(WORDS); self.p(w); }
-                2 => { self.p(" "); let w = self.pick(WORDS); self.p(w); }
+                0 | 1 => { let w = self.pick(WORDS); self.p(w); self.tp(); }
+                2 => { self.p(" "); let w = self.pick(WORDS); self.p(w); self.tp(); }
                 3 => self.mvar(true),
-                4 => { self.feat("nested-parens"); self.p("("); let n = 1 + self.u.below(4);
+                4 => { self.feat("nested-parens"); self.gopen(); let n = 1 + self.u.below(4);
                     for _ in 0..n { match self.u.below(8) {
-                        0 => { let w = self.pick(WORDS); self.p(w); }
+                        0 => { let w = self.pick(WORDS); self.p(w); self.tp(); }
                         1 => { self.feat("masked-after-subtoken"); self.mvar(true); }
                         2 => { self.feat("masked-after-subtoken"); let q = self.u.coin(1, 2); self.p(if q { "'s' " } else { "\"s\" " }); }
                         3 => { self.feat("masked-after-subtoken"); self.p("/*c*/"); }
                         4 => { self.feat("masked-after-subtoken"); self.d_inc(); self.user_call(2); self.depth -= 1; if !self.out.ends_with(')') { self.p(" w"); continue; } }
-                        5 => { self.p("(q"); self.mark(",", MK::Masked); self.p("r)"); }
+                        5 => { self.gopen(); self.p("q"); self.tp(); self.mark(",", MK::Masked); self.p("r"); self.tp(); self.gclose(); }
                         6 => { self.p(" "); }
-                        _ => { self.p("z"); }
+                        _ => { self.p("z"); self.tp(); }
                     }
                     match self.u.below(4) { 0 => self.mark(",", MK::Masked), 1 => self.mark("=", MK::Masked), 2 => self.mark(";", MK::Masked), _ => {} } }
-                    self.p(")"); }
+                    self.gclose(); }
                 5 => { self.feat("quoted-in-arg"); let q = self.u.coin(1, 2); self.p(if q { "'" } else { "\"" }); self.p("s"); self.mark(",", MK::Masked); self.mark(")", MK::Masked); self.mark("=", MK::Masked); self.p(if q { "' " } else { "\" " }); }
                 6 => { self.d_inc(); self.user_call(2); self.depth -= 1; self.p(" "); let w = self.pick(WORDS); self.p(w); }
                 7 => { self.d_inc(); self.builtin_call(2); self.depth -= 1; }
@@ -187,13 +195,13 @@ impl<'a> G<'a> {
         match if self.depth > 5 { 0 } else { self.u.below(12) } {
             0 => { self.p("%eval"); self.ows(); self.del_mark("(", "LPAREN", "MissingExpectedLParen", false); self.ows(); self.eval_expr(false, false); self.ows_after_expr(); self.mark(")", MK::Delim("RPAREN", false)); }
             1 => { self.feat("sysevalf"); self.p("%sysevalf"); self.ows(); self.del_mark("(", "LPAREN", "MissingExpectedLParen", false); self.ows(); self.eval_expr(true, true); if self.u.coin(1, 3) { self.mark(",", MK::Delim("COMMA", false)); self.ows(); self.p("boolean"); } self.mark(")", MK::Delim("RPAREN", false)); }
-            2 => { self.feat("scan"); let nm = self.pick(&["%scan", "%qscan", "%SCAN", "%kscan"]); self.p(nm); self.ows(); self.del_mark("(", "LPAREN", "MissingExpectedLParen", false); self.ows(); self.simple_value(); let close_anchor_needed = self.out.len(); let _ = close_anchor_needed; let di = self.dels.len(); self.del_mark(",", "COMMA", "MissingExpectedComma", false); self.ows(); self.eval_expr(false, true); if self.u.coin(1, 2) { self.mark(",", MK::Delim("COMMA", false)); self.ows(); self.p("|"); self.mark("(", MK::Masked); self.p(" "); self.mark(")", MK::Masked); self.dels.remove(di); } else { let a = self.anchor(); self.dels[di].at_mark = Some(a); } self.mark(")", MK::Delim("RPAREN", false)); }
-            3 => { self.feat("substr"); let nm = self.pick(&["%substr", "%qsubstr", "%ksubstr"]); self.p(nm); self.ows(); self.del_mark("(", "LPAREN", "MissingExpectedLParen", false); self.ows(); self.simple_value(); let di = self.dels.len(); self.del_mark(",", "COMMA", "MissingExpectedComma", false); self.ows(); self.eval_expr(false, true); if self.u.coin(1, 2) { self.mark(",", MK::Delim("COMMA", false)); self.ows(); self.eval_expr(false, true); self.dels.remove(di); } else { let a = self.anchor(); self.dels[di].at_mark = Some(a); } self.mark(")", MK::Delim("RPAREN", false)); }
+            2 => { self.feat("scan"); let nm = self.pick(&["%scan", "%qscan", "%SCAN", "%kscan", "%qkscan", "%QKScan"]); self.p(nm); self.ows(); self.del_mark("(", "LPAREN", "MissingExpectedLParen", false); self.ows(); self.simple_value(); let close_anchor_needed = self.out.len(); let _ = close_anchor_needed; let di = self.dels.len(); self.del_mark(",", "COMMA", "MissingExpectedComma", false); self.ows(); self.eval_expr(false, true); if self.u.coin(1, 2) { self.mark(",", MK::Delim("COMMA", false)); self.ows(); self.p("|"); self.mark("(", MK::Masked); self.p(" "); self.mark(")", MK::Masked); self.dels.remove(di); } else { let a = self.anchor(); self.dels[di].at_mark = Some(a); } self.mark(")", MK::Delim("RPAREN", false)); }
+            3 => { self.feat("substr"); let nm = self.pick(&["%substr", "%qsubstr", "%ksubstr", "%qksubstr", "%SUBSTR", "%QKsubstr"]); self.p(nm); self.ows(); self.del_mark("(", "LPAREN", "MissingExpectedLParen", false); self.ows(); self.simple_value(); let di = self.dels.len(); self.del_mark(",", "COMMA", "MissingExpectedComma", false); self.ows(); self.eval_expr(false, true); if self.u.coin(1, 2) { self.mark(",", MK::Delim("COMMA", false)); self.ows(); self.eval_expr(false, true); self.dels.remove(di); } else { let a = self.anchor(); self.dels[di].at_mark = Some(a); } self.mark(")", MK::Delim("RPAREN", false)); }
             4 => { self.feat("one-arg-masking"); let nm = self.pick(&["%upcase", "%length", "%index", "%quote", "%bquote", "%nrbquote", "%superq", "%unquote", "%symexist", "%sysget", "%qupcase", "%qlowcase", "%nrquote", "%kupcase", "%klength", "%kindex", "%qkupcase", "%qklowcase", "%sysmexecname", "%sysprod", "%symglobl", "%symlocal", "%sysmacexec", "%sysmacexist", "%UPCASE", "%Length"]); self.p(nm); self.ows(); self.del_mark("(", "LPAREN", "MissingExpectedLParen", false); self.ows(); self.simple_value(); if self.u.coin(1, 2) { self.mark(",", MK::Masked); self.p("t"); } self.mark(")", MK::Delim("RPAREN", false)); }
             5 => { self.feat("multi-arg-builtin"); let nm = self.pick(&["%cmpres", "%left", "%trim", "%lowcase", "%qtrim", "%datatyp", "%qcmpres", "%kcmpres", "%qkcmpres", "%qleft", "%kleft", "%qkleft", "%ktrim", "%qktrim", "%klowcase", "%Trim"]); self.p(nm); self.ows(); self.del_mark("(", "LPAREN", "MissingExpectedLParen", false); self.ows(); self.simple_value(); self.mark(")", MK::Delim("RPAREN", false)); }
             6 => { self.feat("sysfunc"); let nm = self.pick(&["%sysfunc", "%qsysfunc", "%SysFunc"]); self.p(nm); self.ows(); self.del_mark("(", "LPAREN", "MissingExpectedLParen", false); self.ows(); let f = self.pick(&["cats", "putn", "max", "today", "substr"]); self.p(f); self.ows(); self.del_mark("(", "LPAREN", "MissingExpectedLParen", false); self.ows(); let n = self.u.below(3); for i in 0..n { if i > 0 { self.mark(",", MK::Delim("COMMA", false)); self.ows(); } self.eval_expr(true, true); } self.mark(")", MK::Delim("RPAREN", false)); self.ows(); if self.u.coin(1, 3) { self.mark(",", MK::Delim("COMMA", false)); self.ows(); self.p("best12."); } self.mark(")", MK::Delim("RPAREN", false)); }
             7 | 8 => { self.str_call(); }
-            9 => { self.feat("verify-named"); let nm = self.pick(&["%verify", "%kverify", "%verify", "%VERIFY"]); self.p(nm); self.ows(); self.del_mark("(", "LPAREN", "MissingExpectedLParen", false); self.ows(); self.simple_value(); self.mark(",", MK::Delim("COMMA", false)); self.ows(); self.simple_value(); self.mark(")", MK::Delim("RPAREN", false)); }
+            9 => { self.feat("verify-named"); let nm = self.pick(&["%verify", "%kverify", "%verify", "%VERIFY", "%compstor", "%validchs"]); self.p(nm); self.ows(); self.del_mark("(", "LPAREN", "MissingExpectedLParen", false); self.ows(); if self.u.coin(1, 3) { self.feat("builtin-named-arg"); self.p("pathname"); self.ows(); self.mark("=", MK::Delim("ASSIGN", false)); self.ows(); } self.simple_value(); self.mark(",", MK::Delim("COMMA", false)); self.ows(); self.simple_value(); self.mark(")", MK::Delim("RPAREN", false)); }
             10 => { self.p("%sysmexecdepth "); }
             _ => { self.user_call(2); if !self.out.ends_with(')') { self.p(" w"); } }
         }
@@ -202,7 +210,7 @@ impl<'a> G<'a> {
     fn ows_after_expr(&mut self) { if self.u.coin(1, 4) { self.mark(" ", MK::HiddenWs); } }
     fn gap_after_expr(&mut self) { self.ows_after_expr(); }
     fn rgap_after_expr(&mut self) { let w = self.pick(&[" ", "\n", "  "]); self.mark(w, MK::HiddenWs); }
-    fn simple_value(&mut self) { match self.u.below(5) { 0 => { let w = self.pick(WORDS); self.p(w); } 1 => self.mvar(true), 2 => { let w = self.pick(WORDS); self.p(w); self.p(" "); let w = self.pick(WORDS); self.p(w); } 3 => { self.p("a(b"); self.mark(",", MK::Masked); self.p("c)d"); } _ => { self.mvar(true); let w = self.pick(WORDS); self.p(w); } } }
+    fn simple_value(&mut self) { match self.u.below(5) { 0 => { let w = self.pick(WORDS); self.p(w); } 1 => self.mvar(true), 2 => { let w = self.pick(WORDS); self.p(w); self.p(" "); let w = self.pick(WORDS); self.p(w); } 3 => { self.p("a"); self.gopen(); self.p("b"); self.tp(); self.mark(",", MK::Masked); self.p("c"); self.tp(); self.gclose(); self.p("d"); self.tp(); } _ => { self.mvar(true); let w = self.pick(WORDS); self.p(w); } } }
     fn str_call(&mut self) {
         self.feat("str-call");
         let nr = self.u.coin(1, 3);
@@ -212,12 +220,12 @@ impl<'a> G<'a> {
         let n = self.u.below(5);
         for _ in 0..n {
             match self.u.below(9) {
-                0 | 1 => { let w = self.pick(WORDS); self.p(w); }
+                0 | 1 => { let w = self.pick(WORDS); self.p(w); self.tp(); }
                 2 => self.p(" "),
                 3 => { self.feat("str-pct-quote"); let q = self.pick(&["%'", "%\"", "%%", "%(", "%)"]); self.p(q); }
                 4 => { self.mark(",", MK::Masked); }
                 5 => { self.mark(";", MK::Masked); }
-                6 => { self.p("(in"); self.mark(",", MK::Masked); self.p("ner)"); }
+                6 => { self.gopen(); self.p("in"); self.tp(); self.mark(",", MK::Masked); self.p("ner"); self.tp(); self.gclose(); }
                 7 => { if nr { self.p("&amp %mac"); } else { self.mvar(true); } }
                 _ => { self.mark("=", MK::Masked); }
             }
@@ -252,7 +260,7 @@ impl<'a> G<'a> {
     fn eval_operand(&mut self, float: bool) -> bool {
         let l0 = self.marks.len();
         match if self.depth > 6 { self.u.below(3) } else { self.u.below(10) } {
-            0 | 1 => { let s = self.pick(&["0", "1", "42", "100", "0ffx", "007"]); self.mark(s, MK::IntOperand); }
+            0 | 1 => { let s = self.pick(&["0", "1", "42", "100", "0ffx", "007"]); self.mark(s, MK::IntOperand); self.tp(); }
             2 => self.mvar(true),
             3 => { let w = self.pick(&["abc", "x1", "txt", "é"]); self.p(w); }
             4 => { self.feat("eval-parens"); self.mark("(", MK::Op("LPAREN")); self.ows(); self.eval_expr(float, false); self.gap_after_expr(); self.mark(")", MK::Op("RPAREN")); }
